@@ -561,11 +561,10 @@ def typeUpper (ty : PyVal) : D (Option Str) :=
 def strandOrPlus (v : PyVal) : D Strand :=
   if truthy v then lookupStrand v else pure Strand.plus
 
-/-- SWITCH for F-C08f.  `false` = the code as it is: `parent_dict["seq_id"] = parent_dict["sequence_name"]` raises
-    KeyError for a whole-chromosome parent exported without sequence id.  `true` = after the one-line repair
-    (`parent_dict.get("sequence_name")`).  Flip it when the repair lands (then delete `f_c08f_witness` in
-    Props/C08.lean and the finding entry F-C08f). -/
-def chromIdRepaired : Bool := false
+/-- SWITCH for F-C08f.  `true` = the code as it is since d13579b (`parent_dict.get("sequence_name")`).
+    `false` = the earlier code: `parent_dict["seq_id"] = parent_dict["sequence_name"]` raised KeyError for a
+    whole-chromosome parent exported without sequence id. -/
+def chromIdRepaired : Bool := true
 
 /-- the key survived the `v is not None` filter -/
 def truthyOrPresent : PyVal → Bool
